@@ -10,7 +10,7 @@ from fsx.props.c07 import expected, close
 ID = 'C08'
 LEVEL = 'exploration'
 RULE = ('grouping key lists of length 1..2 over {ext, dir, is_dir, mode, uid, length(name)} (6 + 30 ordered pairs; thorough adds the 120 ordered triples) x '
-        'aggregate lists {count; sum; count+sum+min+max; avg} x key-first/aggregate-first select order x WHERE on/off x '
+        'aggregate lists {count; sum; count+sum+min+max; avg; arithmetic over aggregates} x key-first/aggregate-first select order x WHERE on/off x '
         'ORDER BY in {none, key asc/desc, aggregate asc/desc, positional, two-key lists} x WHERE incl. one that matches nothing x 3 trees with 1..5 distinct key values incl. '
         'the empty extension; non-trivial = at least two groups')
 ASSUMPTIONS = ['group rows are compared as a set unless ORDER BY is given; ties under ORDER BY may come in any order',
@@ -19,7 +19,8 @@ ASSUMPTIONS = ['group rows are compared as a set unless ORDER BY is given; ties 
 BUDGET = {'quick': 50, 'thorough': 900}
 
 KEYS = ['ext', 'dir', 'is_dir', 'mode', 'uid', 'length(name)']
-AGGS = [['count(*)'], ['sum(size)'], ['count(*)', 'sum(size)', 'min(size)', 'max(size)'], ['avg(size)']]
+AGGS = [['count(*)'], ['sum(size)'], ['count(*)', 'sum(size)', 'min(size)', 'max(size)'], ['avg(size)'],
+        ['sum(size) / count(*)'], ['max(size) - min(size)', '10 * count(*)']]
 TREES = {
     'one': {'a.txt': F(3), 'b.txt': F(5)},
     'small': {'a.txt': F(6, mode=0o600), 'b': F(3), 'noext': F(0, uid=1000, gid=1000),
@@ -27,7 +28,9 @@ TREES = {
     'rich': {'a.txt': F(1), 'bb.txt': F(20, uid=1000), 'c.rs': F(300, mode=0o600), 'dd.rs': F(4, uid=65534, mode=0o600),
              'e.TXT': F(5), 'f': F(6), 'gg': F(70, mode=0o755),
              'p': D({'a.txt': F(8), 'q.rs': F(9, uid=1000), 'r': D({'a.txt': F(100), 'zz.md': F(11), 'y': F(12, mode=0o755)})}),
-             's': D({'t.md': F(2), 'uu.md': F(2, uid=1000, mode=0o640)}, mode=0o700)},
+             's': D({'t.md': F(2), 'uu.md': F(2, uid=1000, mode=0o640)}, mode=0o700),
+             # key values that contain the characters a composite key might be joined with
+             'x,b': D({'f.c': F(3), 'g': F(1)}), 'x': D({'g.b,c': F(4), 'h.c': F(5), 'i|j.k': F(6)}), 'x|i': D({'j.k': F(7)})},
 }
 WHERES = [(None, lambda e: True), ('size gt 2', lambda e: e['size'] > 2), ('size gt 99999999', lambda e: False)]
 
@@ -151,8 +154,16 @@ def eval_group(env, group, tier):
             bad = None
             for kv, r in got.items():
                 for a in aggs:
-                    fn = a.split('(')[0]
-                    exp = expected({'count': 'count', 'sum': 'sum', 'min': 'min', 'max': 'max', 'avg': 'avg'}[fn], part[kv])
+                    vals_ = part[kv]
+                    if a == 'sum(size) / count(*)':
+                        exp, fn = sum(vals_) / len(vals_), 'avg'
+                    elif a == 'max(size) - min(size)':
+                        exp, fn = float(max(vals_) - min(vals_)), 'avg'
+                    elif a == '10 * count(*)':
+                        exp, fn = float(10 * len(vals_)), 'avg'
+                    else:
+                        fn = a.split('(')[0]
+                        exp = expected({'count': 'count', 'sum': 'sum', 'min': 'min', 'max': 'max', 'avg': 'avg'}[fn], vals_)
                     g = r[cols.index(a)]
                     try:
                         ok = (int(g) == exp) if fn != 'avg' else close(g, exp)
@@ -164,7 +175,7 @@ def eval_group(env, group, tier):
                 viol('group-aggregate-wrong', {'group': bad[0], 'agg': bad[1], 'got': bad[2], 'expected': bad[3]})
                 continue
             # conservation laws (differential against the ungrouped query)
-            if 'count(*)' in aggs or 'sum(size)' in aggs:
+            if ('count(*)' in aggs or 'sum(size)' in aggs) and not any(' ' in a for a in aggs):
                 sel = [a for a in aggs if a in ('count(*)', 'sum(size)')]
                 o2 = env.run([', '.join(sel) + ' from .' + w + ' into list'], cwd=root)
                 tot = o2.rows(len(sel))
@@ -177,11 +188,11 @@ def eval_group(env, group, tier):
                 viol('conservation', {'agg': bad[1], 'sum_of_groups': bad[2], 'ungrouped': bad[3]})
                 continue
             # group row = ungrouped aggregate restricted to key = value (differential), first key only
-            if len(keys) == 1 and keys[0] in ('ext', 'uid', 'is_dir', 'length(name)') and c['order'] is None:
-                for kv, r in list(got.items())[:3]:
-                    if kv[0] == '':
+            if len(keys) == 1 and keys[0] in ('ext', 'uid', 'is_dir', 'length(name)') and c['order'] is None and not any(' ' in a for a in aggs):
+                for kv, r in sorted(got.items())[:4]:
+                    if kv[0] == '' or "'" in kv[0] or '*' in kv[0] or '?' in kv[0]:
                         continue
-                    cond = '%s = %s' % (keys[0], kv[0])
+                    cond = "%s = '%s'" % (keys[0], kv[0])
                     w2 = (w + ' and ' + cond) if w else (' where ' + cond)
                     o3 = env.run([', '.join(aggs) + ' from .' + w2 + ' into list'], cwd=root)
                     r3 = o3.rows(len(aggs))
